@@ -459,6 +459,17 @@ pub mod verif {
         out
     }
 
+    /// The hand-over envelope each node currently owns, newest node first.
+    pub fn space_offers() -> Vec<usize> {
+        let mut out = Vec::new();
+        let mut cur = LIST_HEAD.peek() as *const Node;
+        while let Some(node) = unsafe { cur.as_ref() } {
+            out.push(node.helping.verif_space_offer());
+            cur = node.next;
+        }
+        out
+    }
+
     /// Number of debt slots (fast and helping, of all nodes) currently holding `addr`.
     pub fn slots_holding(addr: usize) -> usize {
         let mut n = 0;
